@@ -265,8 +265,13 @@ class Expander:
         if fdef.decorator_list:
             return False
         a = fdef.args
-        if a.kwarg or a.kwonlyargs:
-            return False
+        if a.kwarg:
+            # **options is supported when it is only forwarded (`f(..., **options)`)
+            kw = a.kwarg.arg
+            fwd = {id(k.value) for x in ast.walk(fdef) if isinstance(x, ast.Call) for k in x.keywords
+                   if k.arg is None and isinstance(k.value, ast.Name) and k.value.id == kw}
+            if any(isinstance(x, ast.Name) and x.id == kw and id(x) not in fwd for x in ast.walk(fdef)):
+                return False
         if a.vararg:
             # *args is supported when it is only forwarded (`f(*args)`) or used as a tuple value
             va = a.vararg.arg
@@ -442,12 +447,32 @@ class Expander:
             extra = args[len(cparams):]
             args = args[:len(cparams)]
         binding = dict(zip(cparams, args))
+        kwonly = [x.arg for x in tdef.args.kwonlyargs]
+        extra_kw = []
         for k in call.keywords:
+            if k.arg is None:
+                return None
+            if k.arg in kwonly and k.arg not in binding:
+                binding[k.arg] = k.value
+                continue
+            if k.arg not in cparams and tdef.args.kwarg is not None:
+                # lands in **options: forwarded as the same keyword (evaluated where the helper forwards it, so only names)
+                if not (isinstance(k.value, (ast.Name, ast.Constant)) or (isinstance(k.value, ast.Attribute) and self._pure_chain(k.value))):
+                    return None
+                extra_kw.append((k.arg, k.value))
+                continue
             if k.arg not in cparams or k.arg in binding:
                 return None
             binding[k.arg] = k.value
+        for x, d in zip(tdef.args.kwonlyargs, tdef.args.kw_defaults):
+            if x.arg not in binding:
+                if d is None or not (isinstance(d, (ast.Constant, ast.Name, ast.Attribute)) or _is_literal(d)):
+                    return None
+                binding[x.arg] = d
+        cparams = cparams + kwonly
+        npos = len(cparams) - len(kwonly)
         defaults = tdef.args.defaults
-        for p, d in zip(cparams[len(cparams) - len(defaults):], defaults):
+        for p, d in zip(cparams[npos - len(defaults):npos], defaults):
             if p not in binding and not (isinstance(d, (ast.Constant, ast.Name, ast.Attribute)) or _is_literal(d)):
                 # a default that is evaluated once per process (a dict / list / call): not the same as a fresh value per call
                 return None
@@ -515,6 +540,21 @@ class Expander:
                         return ast.copy_location(t, node)
                     return node
             body = [V().visit(s2) for s2 in body]
+        if tdef.args.kwarg is not None:
+            kwname = tdef.args.kwarg.arg
+
+            class K(ast.NodeTransformer):
+                def visit_Call(self, node):
+                    self.generic_visit(node)
+                    new_kw = []
+                    for k in node.keywords:
+                        if k.arg is None and isinstance(k.value, ast.Name) and k.value.id == kwname:
+                            new_kw.extend(ast.keyword(arg=nm, value=copy.deepcopy(v)) for nm, v in extra_kw)
+                        else:
+                            new_kw.append(k)
+                    node.keywords = new_kw
+                    return node
+            body = [K().visit(s2) for s2 in body]
         if mode == 'tail':
             stmts = pre + body
             if self._can_fall_through(body):
@@ -1574,11 +1614,21 @@ class Expander:
                         cells = {x.id for row in rws for el in row for x in ast.walk(el) if isinstance(x, ast.Name)}
                         local[nm] = (rws, cells | {nm})
                 rows = rows_of(s.iter) if isinstance(s, ast.For) else None
+                flat = False
+                if rows is None and isinstance(s, ast.For) and isinstance(s.target, ast.Name) \
+                        and isinstance(s.iter, (ast.Tuple, ast.List)) and 1 <= len(s.iter.elts) <= 16 \
+                        and all(isinstance(x, ast.Name) or (isinstance(x, ast.Attribute) and exp._pure_chain(x)) for x in s.iter.elts):
+                    # `for k in (A, B, C): S(k)` over an inline display of names: one row per element
+                    rows = [[x] for x in s.iter.elts]
+                    flat = True
                 if rows is None:
                     out.append(s)
                     continue
-                tnames = [x.id for x in s.target.elts] if isinstance(s.target, ast.Tuple) and all(
-                    isinstance(x, ast.Name) for x in s.target.elts) else None
+                if flat:
+                    tnames = [s.target.id]
+                else:
+                    tnames = [x.id for x in s.target.elts] if isinstance(s.target, ast.Tuple) and all(
+                        isinstance(x, ast.Name) for x in s.target.elts) else None
                 if tnames is None or len(tnames) != len(rows[0]):
                     out.append(s)
                     continue
@@ -1591,6 +1641,15 @@ class Expander:
                 if stored & (set(tnames) | row_names):
                     out.append(s)
                     continue
+                # loop variables that are read after the loop keep the values of the row the loop stopped at
+                inside = {id(x) for x in ast.walk(s)}
+                live_after = [t for t in tnames if cur['fdef'] is None or any(
+                    isinstance(x, ast.Name) and x.id == t and isinstance(x.ctx, ast.Load) and id(x) not in inside
+                    for x in ast.walk(cur['fdef']))]
+
+                def keep_row(m_):
+                    return [ast.copy_location(ast.Assign(targets=[ast.Name(id=t, ctx=ast.Store())], value=copy.deepcopy(m_[t])), s)
+                            for t in live_after]
                 if not shape:
                     # no break / continue of this loop at all: the body once per row, then the else clause
                     jumps = False
@@ -1621,6 +1680,9 @@ class Expander:
                             n2 = Sub2().visit(copy.deepcopy(x))
                             ast.fix_missing_locations(n2)
                             out.append(n2)
+                    for n2 in keep_row(dict(zip(tnames, rows[-1]))):
+                        ast.fix_missing_locations(n2)
+                        out.append(n2)
                     out.extend(s.orelse)
                     exp.stats['table_loops'] = exp.stats.get('table_loops', 0) + 1
                     continue
@@ -1634,7 +1696,7 @@ class Expander:
                                 return ast.copy_location(copy.deepcopy(m[node.id]), node)
                             return node
                     test = Sub().visit(copy.deepcopy(body[0].test))
-                    blk = [Sub().visit(copy.deepcopy(x)) for x in body[0].body[:-1]] or [ast.Pass()]
+                    blk = keep_row(m) + [Sub().visit(copy.deepcopy(x)) for x in body[0].body[:-1]] or [ast.Pass()]
                     node = ast.copy_location(ast.If(test=test, body=blk, orelse=chain_else), s)
                     chain_else = [node]
                 for n2 in chain_else:
@@ -1991,9 +2053,142 @@ class Expander:
                 t = T()
                 fdef.body = [t.visit(s) for s in fdef.body]
 
+    # ------------------------------------------------------------------ with <private context manager>
+    def _context_managers(self):
+        """class name -> (fields, enter expression or None, exit body) for private classes that are plain context managers:
+        __init__ stores its parameters, __enter__ returns self / a field / nothing, __exit__ ignores the exception and returns
+        nothing (so it can never suppress it)."""
+        out = {}
+        for (mn, cn), cdef in self.classes.items():
+            if cdef.bases or cdef.keywords or self.subclasses.get((mn, cn)) or not self._is_new_class(mn, cn):
+                continue
+            meths = {st.name: st for st in cdef.body if isinstance(st, ast.FunctionDef)}
+            if set(meths) != {'__init__', '__enter__', '__exit__'}:
+                continue
+            if any(not (isinstance(st, ast.FunctionDef) or (isinstance(st, ast.Expr) and isinstance(st.value, ast.Constant)))
+                   for st in cdef.body):
+                continue
+            init, enter, exit_ = meths['__init__'], meths['__enter__'], meths['__exit__']
+            if any(f.args.vararg or f.args.kwarg or f.args.kwonlyargs or f.args.defaults or f.decorator_list
+                   for f in (init, enter, exit_)):
+                continue
+            ps = _params(init)
+            fields = []
+            ok = True
+            for st in _strip_doc(init.body):
+                if isinstance(st, ast.Assign) and len(st.targets) == 1 and isinstance(st.targets[0], ast.Attribute) \
+                        and isinstance(st.targets[0].value, ast.Name) and st.targets[0].value.id == ps[0] \
+                        and isinstance(st.value, ast.Name) and st.value.id in ps[1:]:
+                    fields.append((st.targets[0].attr, st.value.id))
+                else:
+                    ok = False
+            if not ok or sorted(p_ for _, p_ in fields) != sorted(ps[1:]):
+                continue
+            eb = _strip_doc(enter.body)
+            me = _params(enter)[0]
+            enter_expr = None
+            if len(eb) == 1 and isinstance(eb[0], ast.Return):
+                enter_expr = eb[0].value
+            elif not (len(eb) == 1 and isinstance(eb[0], ast.Pass)) and eb:
+                continue
+            xps = _params(exit_)
+            if len(xps) != 4:
+                continue
+            xb = _strip_doc(exit_.body)
+            bad = False
+            for st in xb:
+                for x in ast.walk(st):
+                    if isinstance(x, ast.Return) and x.value is not None and not (isinstance(x.value, ast.Constant) and not x.value.value):
+                        bad = True
+                    if isinstance(x, ast.Return):
+                        bad = bad or (x is not xb[-1])
+                    if isinstance(x, ast.Name) and x.id in xps[1:]:
+                        bad = True
+                    if isinstance(x, (ast.Yield, ast.YieldFrom, ast.Await)):
+                        bad = True
+            if bad:
+                continue
+            out[cn] = (fields, ps, enter_expr, me, xb, xps[0])
+        return out
+
+    def rewrite_with_managers(self):
+        """`with K(a, b) [as v]: B`  (K a private plain context manager, a and b names)  ->
+               [v = <what __enter__ returns>]; try: B; finally: <body of __exit__>
+        which is what the statement does when __exit__ cannot suppress the exception."""
+        cms = self._context_managers()
+        if not cms:
+            return
+        exp = self
+
+        def field_subst(expr_or_stmts, selfname, fmap, self_repl=None):
+            class T(ast.NodeTransformer):
+                def visit_Attribute(self, node):
+                    if isinstance(node.value, ast.Name) and node.value.id == selfname and node.attr in fmap \
+                            and isinstance(node.ctx, ast.Load):
+                        return ast.copy_location(copy.deepcopy(fmap[node.attr]), node)
+                    self.generic_visit(node)
+                    return node
+            return T().visit(copy.deepcopy(expr_or_stmts))
+
+        def uses_self(node, selfname):
+            return any(isinstance(x, ast.Name) and x.id == selfname for x in ast.walk(node))
+
+        def rewrite(stmts):
+            out = []
+            for s in stmts:
+                for sub in ('body', 'orelse', 'finalbody'):
+                    if isinstance(getattr(s, sub, None), list) and not isinstance(s, ast.ClassDef):
+                        setattr(s, sub, rewrite(getattr(s, sub)))
+                for h in getattr(s, 'handlers', []) or []:
+                    h.body = rewrite(h.body)
+                if not (isinstance(s, ast.With) and len(s.items) == 1):
+                    out.append(s)
+                    continue
+                it = s.items[0]
+                c = it.context_expr
+                if not (isinstance(c, ast.Call) and isinstance(c.func, ast.Name) and c.func.id in cms and not c.keywords
+                        and all(isinstance(a, (ast.Name, ast.Constant)) for a in c.args)):
+                    out.append(s)
+                    continue
+                fields, ps, enter_expr, me, xb, xme = cms[c.func.id]
+                if len(c.args) != len(ps) - 1 or (it.optional_vars is not None and not isinstance(it.optional_vars, ast.Name)):
+                    out.append(s)
+                    continue
+                by_param = dict(zip(ps[1:], c.args))
+                fmap = {attr: by_param[p_] for attr, p_ in fields}
+                # the manager's arguments must not be rebound inside the block (the fields keep the values of entry)
+                stored = {x.id for st in s.body for x in ast.walk(st) if isinstance(x, ast.Name) and isinstance(x.ctx, (ast.Store, ast.Del))}
+                if stored & {a.id for a in c.args if isinstance(a, ast.Name)}:
+                    out.append(s)
+                    continue
+                pre = []
+                if it.optional_vars is not None:
+                    if enter_expr is None:
+                        val = ast.Constant(value=None)
+                    else:
+                        val = field_subst(enter_expr, me, fmap)
+                        if uses_self(val, me):
+                            out.append(s)
+                            continue
+                    pre.append(ast.copy_location(ast.Assign(targets=[ast.Name(id=it.optional_vars.id, ctx=ast.Store())], value=val), s))
+                fin = [field_subst(st, xme, fmap) for st in xb if not isinstance(st, ast.Return)] or [ast.Pass()]
+                if any(uses_self(st, xme) for st in fin):
+                    out.append(s)
+                    continue
+                tr = ast.copy_location(ast.Try(body=s.body, handlers=[], orelse=[], finalbody=fin), s)
+                for n2 in pre + [tr]:
+                    ast.fix_missing_locations(n2)
+                    out.append(n2)
+                exp.stats['with_managers'] = exp.stats.get('with_managers', 0) + 1
+            return out
+        for m in self.modules.values():
+            for fdef in [n for n in ast.walk(m.tree) if isinstance(n, ast.FunctionDef)]:
+                fdef.body = rewrite(fdef.body)
+
     # ------------------------------------------------------------------ driver
     def run(self):
         self.collect()
+        self.rewrite_with_managers()
         self.substitute_constants()
         self.expand_dispatch()
         self.unroll_table_loops()
@@ -2036,9 +2231,17 @@ def expand_modules(modules):
 
 
 def resubstitute_constants(modules):
+    """after canonicalisation: named constants exposed by it, and local names that canonicalisation folded to literals
+    (`name = 'check_' + kind` after the helper with the parameter `kind` was inlined).  Returns True when a local was
+    substituted, so that the caller canonicalises once more (getattr(x, <literal>) -> x.<literal>)."""
     e = Expander(modules, load_baseline())
     e.collect()
     e.substitute_constants()
+    before = e.stats.get('local_literals', 0)
+    e.substitute_local_literals()
+    for m in modules.values():
+        ast.fix_missing_locations(m.tree)
+    return e.stats.get('local_literals', 0) > before
 
 
 def write_baseline(repo):
